@@ -74,7 +74,9 @@ CheckRun(r, k) ==
               ELSE IF Instr(r)
               THEN (IF ~passed THEN <<>> ELSE << F(k, "FailsThere", "continued-past-declaration", r.mode) >>) \o
                    (IF passed \/ D.catches \/ (r.result[1] = "raise" /\ Len(r.result) >= 6 /\ r.result[3] = "NameError:PteraNameError"
-                                               /\ r.result[4] = D.var /\ r.result[5] = "body" /\ r.result[6] = D.ann)
+                                               /\ r.result[4] = D.var /\ r.result[5] = "body"
+                                               \* reached through one tag only, the declarations carrying other tags are not looked at
+                                               /\ (r.result[6] = D.ann \/ (ByTag(r) /\ r.result[6] = "ann:ptera.tag." \o D.tag)))
                     THEN <<>> ELSE << F(k, "FailsThere", "wrong-error", r.result[Len(r.result)]) >>)
               \* nobody looks at the declared variable: the declaration is a plain declaration, the run is the untouched function's
               ELSE IF r.mode \notin {"probe", "catplain"} \/ ("var2" \in DOMAIN D /\ instrV(D.var2)) THEN <<>>
